@@ -592,7 +592,14 @@ func (x *exec) frameExclusions(u *Unit) []frameExcl {
 			id, _ := m.Fun.(*spec.Ident)
 			if id != nil && id.Name == "Mem" {
 				v := pre.eval(m.Args[0])
-				sl := types.Unalias(v.T).Underlying().(*types.Slice)
+				sl, isSl := types.Unalias(v.T).Underlying().(*types.Slice)
+				if !isSl {
+					if len(v.L) == 1 && v.L[0].Sort == smt.Ref {
+						ex = append(ex, frameExcl{prefix: memKeyPrefix(types.Universe.Lookup("byte").Type()), ref: v.L[0], whole: true})
+						return
+					}
+					specErr("modifies: Mem() of non-slice")
+				}
 				ex = append(ex, frameExcl{prefix: memKeyPrefix(sl.Elem()), ref: v.L[slArr], whole: true})
 				return
 			}
